@@ -279,10 +279,16 @@ func init() {
 					q.Settle = p.Settle
 					out = append(out, &q)
 				}
+				// a policy migration: every open of the program uses another policy for new tables and lists the
+				// earlier ones in AltFilters, so tables written under different policies coexist
+				m := *p
+				m.Opts.FilterBits, m.FilterMigration = 0, true
+				m.Settle = p.Settle
+				out = append(out, &m)
 				return out
 			},
 			nontriv: hasTables,
-			rule:    "DB programs replayed under four filter settings (none; bloom 10 bits/base 2^11; 1 bit/2^4; 16 bits/2^6): every read must match the plain map in each, and the read transcripts must be identical across the settings",
+			rule:    "DB programs replayed under five filter settings (none; bloom 10 bits/base 2^11; 1 bit/2^4; 16 bits/2^6; a policy migration: each (re)open switches among three differently named policies and none, the others listed in AltFilters): every read must match the plain map in each, and the read transcripts must be identical across the settings",
 		})
 	}
 }
